@@ -207,6 +207,16 @@ func serverHarness(rc *RunCtx) {
 			rc.Fault("malformed-arguments")
 		}
 		hdr := map[string]string{"_opid": r.opid, "_cid": "cid" + strconv.Itoa(i), "_timeout": "5000", "tag": r.tag}
+		if k := tp.Intn("reqtimeout", 8); k >= 4 {
+			// callers with short, zero or no timeouts: what the caller is prepared to wait is the caller's business; a
+			// request with decodable headers is answered
+			if v := []string{"0", "1", "30", ""}[k-4]; v == "" {
+				delete(hdr, "_timeout")
+			} else {
+				hdr["_timeout"] = v
+			}
+			rc.Fault("request-with-a-short-zero-or-absent-timeout")
+		}
 		r.frame = EncodeFrame(hdr, msg)
 		// expectation
 		switch {
